@@ -1195,8 +1195,10 @@ def scen_timedlts(prefix, kinds=("timeout", "delay", "interval", "timer", "debou
                 wk = list(range(d, horizon + d + 1, d))          # the worker wakes every d while subscribed
                 if u is not None and not _tl_unsub_ok(u, [src, wk]):
                     continue
-                if end is not None and end in wk and u == end:
-                    continue
+                if end is not None and u == end:
+                    continue        # unsubscribe at the very instant of the source's terminal: debounce's terminal handler (flush the
+                                    # pending item, terminal, finalize) and the unsubscriber's finalize interleave below the LTS's
+                                    # atomic steps (DESIGN 10.2 (c)); seen as linearisation rejects at thorough scale, never as a wrong outcome
                 add("db-r", "debounce (d %d) (script %s)%s" % (d, " ".join(_tl_entry(e) for e in es), " (unsub %d)" % u if u is not None else ""))
             else:
                 es = [("n", rng.choice([2, 3, 7, 10, 13]), j + 1, 0) for j in range(rng.randint(1, 4))]
